@@ -41,7 +41,7 @@ COMPONENTS = {
 PROBES = ["evaluator_level_clauses_checked", "ensemble_with_failed_perturbations", "values_compared", "constraint_first_at_new_point", "jacobian_first_at_new_point", "gradient_first_at_new_point",
           "repeat_same_point", "population_request", "speculative", "split", "speculative_twin_compared", "gradient_free_method",
           "callback_invocations", "linear_rows_in_script", "shape_change",
-          "optimizer_object_restarted", "restarts_compared", "restart_same_free_other_fixed"]
+          "with_variable_transform", "optimizer_object_restarted", "restarts_compared", "restart_same_free_other_fixed"]
 
 
 def _generate_restarts(rng: random.Random) -> dict:
@@ -178,6 +178,13 @@ def generate(seed: int, index: int, tier: str) -> dict:
             else:
                 e["pts"] = [e["pt"]]
     scn["fake"]["script"] = script
+    if index % 12 == 3 and "linear_constraints" not in scn["configs"][0] and not ensemble:
+        # a variable transform (scales and offsets): the algorithm works in the optimizer domain, the value handed to it
+        # for x is the ensemble value at the user-domain image of x
+        nv_ = len(scn["world"]["var_ids"])
+        scn["transforms"] = {"var": {"scales": [round(rng.uniform(0.25, 4.0), 3) for _ in range(nv_)],
+                                     "offsets": [round(rng.uniform(-1.0, 1.0), 3) for _ in range(nv_)] if rng.random() < 0.6 else None}}
+        scn["stratum"] = "variable-transform"
     return scn
 
 
@@ -188,7 +195,9 @@ class Ref:
         self.cfg = cfg
         self.world = ctx.world
         self.mask = model.mask_of(cfg)
-        self.x0 = np.asarray(cfg["variables"]["initial_values"], float)
+        self.tm = oracles.TransformModel(ctx.scn.get("transforms"), len(cfg["variables"]["initial_values"]), 1, 0)
+        # (x0 and every vector the algorithm works with: optimizer domain; the world is asked at the user-domain image)
+        self.x0 = self.tm.x_to_opt(np.asarray(cfg["variables"]["initial_values"], float))
         self.ow = model.objective_weights(cfg)
         self.h = float(np.atleast_1d(cfg["gradient"]["perturbation_magnitudes"])[0])
         nl = cfg.get("nonlinear_constraints")
@@ -205,7 +214,7 @@ class Ref:
     def raw(self, xf):
         nr = len(self.world.real_ids)
         if nr == 1:
-            o, c = self.world.values(self.full(xf)[None, :], np.array([0]))
+            o, c = self.world.values(self.tm.x_to_user(self.full(xf))[None, :], np.array([0]))
             return float(self.ow @ o[0]), (None if c is None else c[0])
         # ensemble: weighted mean over all realizations (none of them fails in an unperturbed evaluation)
         w = model.realization_weights(self.cfg)
@@ -296,6 +305,9 @@ def _compare_log(ctx, cfg, viol, probes, log=None):
             want, tol = ref.raw(x)[0], 1e-9
         elif ctx.scn.get("ensemble") and (q == "g" or (q == "j" and not ref.is_linear(rec["k"]))):
             continue  # gradients over a partly failed ensemble: compared through the speculative twin only
+        elif ref.tm.has_var and q in ("g", "j"):
+            probe("with_variable_transform")
+            continue  # derivatives under a variable transform: compared through the speculative twin only
         elif q == "g":
             want, tol = ref.grad_raw(x)[0], 1e-6
         elif q == "c":
